@@ -10,6 +10,7 @@ From SK Require Import Lib.Base Model.Sbs Proofs.ArgmaxLemmas Proofs.SbsProofs.
 Import ListNotations.
 Open Scope Z_scope.
 
+From SK Require Import Check.Scores Check.SbsCheck Proofs.CheckerSoundness Proofs.ValidCuts.
 Definition lens_ok (n minlen maxlen : nat) (lens : list (nat * nat)) : Prop :=
   lens <> [] /\ forall len step, In (len, step) lens -> (minlen <= len <= Nat.min maxlen n /\ 1 <= step)%nat.
 
@@ -134,3 +135,17 @@ Print Assumptions C07_changepoints_wellformed.
 Print Assumptions C07_threshold_monotone.
 Print Assumptions C07_total.
 Print Assumptions C07_ext.
+
+(** ---- added: statements re-derived from the lemma files by tools/append_props.py ---- *)
+Theorem C07_checker_sound : forall c : sbs_case, sbs_spec_ok c = true -> (sc_rows c <> [] /\ (forall (s e k : nat) (v : Z), In (s, e, k, v) (sc_rows c) -> (s < e)%nat /\ (e <= sc_n c)%nat /\ (2 * sc_m c <= e - s <= Nat.min (sc_maxlen c) (sc_n c))%nat)) /\ (forall (s e k : nat) (v : Z), In (s, e, k, v) (sc_rows c) -> amoc (cs_agg (sc_score c)) (sc_m c) (s, e) = Some (k, v) /\ ((s + sc_m c <= k)%nat /\ (k + sc_m c <= e)%nat) /\ v = cs_agg (sc_score c) s k e /\ (forall k' : nat, (s + sc_m c <= k')%nat /\ (k' + sc_m c <= e)%nat -> cs_agg (sc_score c) s k' e <= v /\ (cs_agg (sc_score c) s k' e = v -> (k <= k')%nat))) /\ (forall cp : nat, In cp (sc_cpts c) -> exists (s e : nat) (v : Z), In (s, e, cp, v) (sc_rows c) /\ sc_thr c < v /\ (s <= cp < e)%nat) /\ (forall (s e k : nat) (v : Z), In (s, e, k, v) (sc_rows c) -> sc_thr c < v -> exists cp : nat, In cp (sc_cpts c) /\ (s <= cp < e)%nat) /\ (sc_m c <= sc_n c)%nat /\ (forall cp : nat, In cp (sc_cpts c) -> (sc_m c <= cp)%nat /\ (cp + sc_m c <= sc_n c)%nat) /\ (forall i : nat, (S i < length (sc_cpts c))%nat -> (nthN (sc_cpts c) i + sc_m c <= nthN (sc_cpts c) (S i))%nat).
+Proof. exact @sbs_spec_ok_sound. Qed.
+
+Theorem C07_model_equality_checker_sound : forall c : sbs_case, sbs_model_eq c = true -> let ivs := seeded_intervals (sc_n c) (2 * sc_m c) (sc_lens c) in map row_iv (sc_rows c) = ivs /\ (exists am : list (nat * Z), sbs (cs_agg (sc_score c)) (sc_m c) (sc_thr c) ivs = Some (sc_cpts c, am) /\ map fst am = map row_arg (sc_rows c) /\ map snd am = map row_score (sc_rows c)).
+Proof. exact @sbs_model_eq_sound. Qed.
+
+Theorem C07_only_valid_cuts_matter : forall (CS1 CS2 : nat -> nat -> nat -> Z) (m : nat) (thr : Z) (ivs : list (nat * nat)), (forall s e k : nat, In (s, e) ivs -> (s + m <= k)%nat -> (k + m <= e)%nat -> CS1 s k e = CS2 s k e) -> sbs CS1 m thr ivs = sbs CS2 m thr ivs.
+Proof. exact @sbs_ext_valid. Qed.
+
+Print Assumptions C07_checker_sound.
+Print Assumptions C07_model_equality_checker_sound.
+Print Assumptions C07_only_valid_cuts_matter.
